@@ -816,7 +816,7 @@ fn x86_state(rng: &mut Rng, amd64: bool) -> MachState {
 }
 
 fn generate(tier: Tier, rng: &mut Rng, em: &mut Emit) {
-    let n_cases = if tier == Tier::Quick { 700 } else { 40_000 };
+    let n_cases = if tier == Tier::Quick { 700 } else { 12_000 }; // per shard (8 shards)
     for case in 0..n_cases {
         let which = case % 4;
         let base = 0x1000u64 + if rng.chance(1, 3) { 4 * rng.below(16) } else { 0 };
@@ -876,7 +876,7 @@ fn generate(tier: Tier, rng: &mut Rng, em: &mut Emit) {
     }
     // the assembly algorithm alone, on synthetic translation results (after the programs, so that their stream is unchanged)
     let mut r2 = rng.fork();
-    gen_asm(&mut r2, em, if tier == Tier::Quick { 1_500 } else { 8_000 });
+    gen_asm(&mut r2, em, if tier == Tier::Quick { 1_500 } else { 5_000 });
 }
 
 fn main() {
